@@ -2,7 +2,7 @@
 import json
 import os
 
-from .. import core, frame, gen
+from .. import core, fault, frame, gen
 from ..decomp import decompose
 
 PROP = "C15"
@@ -328,6 +328,76 @@ def missing_src_work(job):
     return res
 
 
+def unreadable_dir_work(job):
+    """One directory below source_dir cannot be listed (opendir fails with EACCES / ENOENT / EIO / EMFILE-free errors, injected at the
+    libc boundary - this sandbox runs as root, so permission bits alone would not do it). What lies in it cannot be judged; every
+    in-scope file outside it still is in scope: read, reported under --check, edited otherwise."""
+    built, seed, i = job
+    rnd = core.rng_for("c15unr", seed, i)
+    res = {"evaluations": 1, "nontrivial": [], "violations": [], "samples": [], "inconclusive": {}, "counters": {}}
+    mode = "check" if i % 2 else "edit"
+    en = ["EACCES", "ENOENT", "EIO", "EPERM"][(i // 2) % 4]
+    dirs = ["a_first", "build_cache", "m_private", "n_next/deep/deeper", "vendor", "z_last", "Zcaps", "0digits"]
+    rnd.shuffle(dirs)
+    with core.Box(tag="c15u") as box:
+        src = os.path.join(box.proj, "src")
+        names = []
+        for d in dirs:
+            for fn in rnd.sample(["mod.rs", "lib.rs", "x.rs", "notes.txt"], rnd.choice([1, 2, 3])):
+                names.append(d + "/" + fn)
+        names += ["aa.rs", "main.rs", "zz.rs", "0.rs"]
+        for n in names:
+            p_ = os.path.join(src, n)
+            os.makedirs(os.path.dirname(p_), exist_ok=True)
+            with open(p_, "wb") as f:
+                f.write(STMT)
+        # the directory that cannot be listed: a top-level one, or one two levels down
+        bad = rnd.choice([d.split("/")[0] for d in dirs] + ["n_next/deep"])
+        os.makedirs(os.path.join(src, bad, "inner"), exist_ok=True)
+        with open(os.path.join(src, bad, "inner", "hidden.rs"), "wb") as f:
+            f.write(STMT)
+        cfg = box.write("Breadlog.yaml", core.make_config(source_dir="src"))
+        before = core.snapshot(box.root)
+        r = core.run_breadlog(built, box, cfg, check=(mode == "check"), shim=True,
+                              rules="kind=opendir,path~=/src/%s,act=errno:%d" % (bad, fault.ERRNO[en]))
+        after = core.snapshot(box.root)
+        fired = [o for o in (r.shim or []) if o.get("fired")]
+        opened = {os.path.relpath(o["path"], box.root) for o in (r.shim or []) if o["kind"] in ("openr", "openw")}
+        reported = {os.path.relpath(os.path.realpath(path), os.path.realpath(box.root)) for path, line, col in r.missing()} if mode == "check" else set()
+    if r.panicked() or r.timed_out:
+        res["inconclusive"]["run-crashed (C17's business)"] = 1
+        return res
+    if not fired:
+        res["inconclusive"]["opendir fault did not fire"] = 1
+        return res
+    scope = {os.path.normpath(os.path.join("proj/src", n)) for n in names
+             if n.endswith(".rs") and not n.startswith(bad + "/")}
+    res["nontrivial"].append("unlistable-directory|%s|%s|%s" % (en, "nested" if "/" in bad else "top", mode))
+    res["counters"]["runs_with_an_unlistable_directory"] = 1
+    res["counters"]["in_scope_files_beside_an_unlistable_directory"] = len(scope)
+    diff = core.snap_diff(before, after, meta=False)
+    changed = {p for p, _ in diff}
+    v = []
+    never = sorted(p for p in scope if p not in opened)
+    if never:
+        v.append(("in-scope-file-not-read", {"paths": never[:4], "count": len(never)}))
+    if mode == "check":
+        if scope - reported:
+            v.append(("in-scope-file-not-reported", {"paths": sorted(scope - reported)[:4], "count": len(scope - reported)}))
+    elif r.rc == 0:
+        notedited = sorted(p for p in scope if p not in changed)
+        if notedited:
+            v.append(("in-scope-file-not-edited", {"paths": notedited[:4], "count": len(notedited), "stdout": r.out[-300:]}))
+    for p, what in diff:
+        if p in scope or p == "proj/Breadlog.lock":
+            continue
+        v.append(("out-of-scope-path-modified", {"path": p, "what": what}))
+    for clause, detail in v:
+        res["violations"].append({"signature": "C15.%s|beside-an-unlistable-directory|%s" % (clause, mode),
+                                  "detail": dict(detail, exit=r.ended(), errno=en, unlistable=bad), "case": {"unlistable": [seed, i]}})
+    return res
+
+
 def main(tier):
     ck = frame.Check(PROP, tier, "exploration", replay_fn=replay_witness)
     built = core.build_repo()
@@ -338,6 +408,8 @@ def main(tier):
     for res in frame.pmap(work, [(built, ck.seed, i) for i in range(n)], chunksize=4):
         ck.absorb(res)
     for res in frame.pmap(missing_src_work, [(built, ck.seed, i) for i in range(40 if tier == "quick" else 400)], chunksize=4):
+        ck.absorb(res)
+    for res in frame.pmap(unreadable_dir_work, [(built, ck.seed, i) for i in range(32 if tier == "quick" else 400)], chunksize=4):
         ck.absorb(res)
     ck.extra["product"] = {"extension_lists": EXT_LISTS, "source_dir_forms": SRC_FORMS, "config_path_forms": CFG_FORMS, "cwds": CWDS}
     ck.exhaustive = True
@@ -355,6 +427,8 @@ def replay_witness(w, ck=None, built=None):
     built = built or (ck.built if ck else None) or core.build_repo()
     core.build_shim()
     c = w["case"] if "case" in w else w["first"]["case"]
+    if "unlistable" in c:
+        return bool(unreadable_dir_work((built, c["unlistable"][0], c["unlistable"][1]))["violations"])
     if "missing_src" in c:
         return bool(missing_src_work((built, c["missing_src"][0], c["missing_src"][1]))["violations"])
     r = work((built, c["seed"], c["i"]))
